@@ -97,25 +97,24 @@ def firstTwo (t : List Int) : Except Err (Int × Int) :=
   | _ => .error .indexError
 
 /-- `SparseDrugCombo._add_observations` -/
-def addSparseDrugCombo {τ : Type} (transform : Nat → τ) (nanT : τ → Bool) (rows : List Row) : Except Err (Trained τ) := do
-  if !(rows.all (fun r => geZero r.obs)) then throw .valueError
-  let ys := rows.map (fun r => transform r.obs)
-  if ys.any nanT then throw .valueError
-  let tuples ← (rows.filter (·.mask)).mapM (fun r => do
-    let d ← firstTwo r.tids
-    pure (transform r.obs, r.sid, d.1, d.2))
-  pure { tuples := tuples, single := [] }
+def addSparseDrugCombo {τ : Type} (transform : Nat → τ) (nanT : τ → Bool) (rows : List Row) : Except Err (Trained τ) :=
+  if !(rows.all (fun r => geZero r.obs)) then .error .valueError
+  else if (rows.map (fun r => transform r.obs)).any nanT then .error .valueError
+  else do
+    let tuples ← (rows.filter (·.mask)).mapM (fun r => do
+      let d ← firstTwo r.tids
+      pure (transform r.obs, r.sid, d.1, d.2))
+    pure { tuples := tuples, single := [] }
 
 /-- `SparseDrugComboInteraction._add_observations` (on a fresh model: `single_effect_lookup` starts empty) -/
-def addInteraction {τ : Type} (transform : Nat → τ) (arity : Nat) (rows : List Row) : Except Err (Trained τ) := do
-  if arity != 2 then throw .valueError
-  if !(rows.all (fun r => geZero r.obs)) then throw .valueError
-  let single := singleEffectMap rows arity
-  let combos := rows.filter (fun r => countControl r.tids == 0)
-  let tuples ← (combos.filter (·.mask)).mapM (fun r => do
-    let d ← firstTwo r.tids
-    pure (transform r.obs, r.sid, d.1, d.2))
-  pure { tuples := tuples, single := single }
+def addInteraction {τ : Type} (transform : Nat → τ) (arity : Nat) (rows : List Row) : Except Err (Trained τ) :=
+  if arity != 2 then .error .valueError
+  else if !(rows.all (fun r => geZero r.obs)) then .error .valueError
+  else do
+    let tuples ← ((rows.filter (fun r => countControl r.tids == 0)).filter (·.mask)).mapM (fun r => do
+      let d ← firstTwo r.tids
+      pure (transform r.obs, r.sid, d.1, d.2))
+    pure { tuples := tuples, single := singleEffectMap rows arity }
 
 /-- `BayesianModel.add_observations(data)` for the two shipped MCMC models -/
 def addObservations {τ : Type} (m : ModelKind) (transform : Nat → τ) (nanT : τ → Bool) (arity : Nat) (rows : List Row) :
